@@ -9,11 +9,29 @@
 namespace Usual.C15.ListSort
 variable {α : Type}
 
-/-- merge(): take from p when cmp(p,q) <= 0 -/
+/-- inner loop of merge() while the head `x` of `p` is fixed: elements of `q` that compare
+    strictly below `x` go first; `k` continues with the rest of `p` once `x` has been taken -/
+def mergeGo (le : α → α → Bool) (x : α) (k : List α → List α) : List α → List α
+  | [] => x :: k []
+  | y :: ys => if le x y then x :: k (y :: ys) else y :: mergeGo le x k ys
+
+/-- merge(): take from p when cmp(p,q) <= 0.  (Written as two nested structural recursions so
+    that it also evaluates inside the kernel; `merge_cons_cons` is the loop body of the C code.) -/
 def merge (le : α → α → Bool) : List α → List α → List α
   | [], q => q
-  | p, [] => p
-  | x :: xs, y :: ys => if le x y then x :: merge le xs (y :: ys) else y :: merge le (x :: xs) ys
+  | x :: xs, q => mergeGo le x (fun zs => merge le xs zs) q
+
+theorem merge_nil_left (le : α → α → Bool) (q : List α) : merge le [] q = q := rfl
+
+theorem merge_nil_right (le : α → α → Bool) : ∀ p : List α, merge le p [] = p
+  | [] => rfl
+  | x :: xs => by
+    show x :: merge le xs [] = x :: xs
+    rw [merge_nil_right le xs]
+
+theorem merge_cons_cons (le : α → α → Bool) (x : α) (xs : List α) (y : α) (ys : List α) :
+    merge le (x :: xs) (y :: ys) =
+      if le x y then x :: merge le xs (y :: ys) else y :: merge le (x :: xs) ys := rfl
 
 /-- carry step of the counter: merge the new run into the stack slots (slot i holds a run or
     nothing; runs in LOWER slots hold LATER elements) -/
